@@ -1,6 +1,6 @@
 (* Lemmas about the archive_entry model (C14): arithmetic of FIX_NS and of the glibc dev_t layout,
    the ae_set bitmap, the mode partition, the refinement of the abstract specification, clone. *)
-From Coq Require Import List ZArith Bool Lia Permutation.
+From Coq Require Import List ZArith NArith Bool Lia Permutation.
 From LA Require Import Base.Val Gen.EntryConsts Entry.EntryDefs.
 Import ListNotations.
 Local Open Scope Z_scope.
@@ -529,3 +529,535 @@ Proof.
        first [ exact (inv_rdev0 _ I) | exact (inv_mode _ I) | exact (inv_stat _ I) | idtac ].
 Qed.
 
+(* ================================================================ steps refine the specification *)
+
+
+Lemma step1_ok : forall e o, Inv e ->
+  abs (fst (step1 false e o)) = fst (sp_step1 (abs e) o) /\
+  snd (step1 false e o) = snd (sp_step1 (abs e) o) /\
+  Inv (fst (step1 false e o)).
+Proof.
+  intros e o I. destruct o.
+  - split; [apply A_time | split; [reflexivity | apply Inv_time; assumption]].
+  - split; [apply A_unset_time | split; [reflexivity | apply Inv_unset_time; assumption]].
+  - split; [apply A_id | split; [reflexivity | apply Inv_id; assumption]].
+  - split; [apply A_unset_size | split; [reflexivity | apply Inv_unset_size; assumption]].
+  - split; [apply A_mode | split; [reflexivity | apply Inv_mode; assumption]].
+  - split; [apply A_perm | split; [reflexivity | apply (Inv_mode e p I)]].
+  - split; [apply A_filetype | split; [reflexivity | apply (Inv_mode e t I)]].
+  - split; [apply A_acl | split; [reflexivity | apply Inv_acl; assumption]].
+  - split; [apply A_dev | split; [destruct w; reflexivity | apply Inv_dev; assumption]].
+  - split; [apply A_symtype | split; [reflexivity | apply (Inv_small e v I)]].
+  - split; [apply (A_enc e v) | split; [reflexivity | apply (Inv_small e v I)]].
+  - split; [apply (A_enc e v) | split; [reflexivity | apply (Inv_small e v I)]].
+  - split; [apply A_link; assumption | split; [apply A_link; assumption | apply Inv_link; assumption]].
+  - split; [apply A_linkto; assumption | split; [destruct f; reflexivity | apply Inv_linkto; assumption]].
+  - split; [apply A_str | split; [apply A_str | apply (Inv_str e f v a [] [] 0 0 I)]].
+  - split; [apply A_sparse; assumption | split; [reflexivity | apply (Inv_str e FPath VSet None [] [] off len I)]].
+  - split; [apply (A_misc e [] []) | split; [reflexivity | apply (Inv_small e 0 I)]].
+  - split; [apply (A_misc e name value) | split; [reflexivity | apply (Inv_str e FPath VSet None name value 0 0 I)]].
+  - split; [apply (A_misc e [] []) | split; [reflexivity | apply (Inv_small e 0 I)]].
+  - split; [reflexivity | split; [reflexivity | exact I]].
+  - split; [apply (A_misc e [] []) | split; [reflexivity | apply (Inv_small e 0 I)]].
+Qed.
+
+Lemma run1_ok : forall l e, Inv e ->
+  abs (fold_left (fun e o => fst (step1 false e o)) l e) = fold_left (fun s o => fst (sp_step1 s o)) l (abs e) /\
+  Inv (fold_left (fun e o => fst (step1 false e o)) l e).
+Proof.
+  induction l as [|o l IH]; intros e I; cbn [fold_left].
+  - split; [reflexivity | exact I].
+  - destruct (step1_ok e o I) as (H1 & _ & H3). rewrite <- H1. apply IH. exact H3.
+Qed.
+
+Theorem step_ok : forall e o, Inv e ->
+  abs (fst (step false e o)) = fst (sp_step (abs e) o) /\
+  snd (step false e o) = snd (sp_step (abs e) o) /\
+  Inv (fst (step false e o)).
+Proof.
+  intros e o I. destruct o; try exact (step1_ok e _ I).
+  unfold step, sp_step. cbn [fst snd]. destruct (run1_ok (copy_stat_ops s) e I) as [H1 H2].
+  split; [exact H1 | split; [reflexivity | exact H2]].
+Qed.
+
+(* ================================================================ observation *)
+Definition obs_nox (a : obs) : obs :=
+  mkObs (o_times a) (o_ids a) (o_mode a) (o_dev a) (o_misc a) (o_hardlink a) (o_hardlink_is_set a) (o_symlink a)
+        (o_strs a) (o_sparse a) [] (o_stat a).
+(* equal through every getter; the xattr enumeration may come in another order *)
+Definition obs_rel (a b : obs) : Prop := obs_nox a = obs_nox b /\ Permutation (o_xattr a) (o_xattr b).
+
+Lemma get_flagv : forall s f, is_bit f = true -> fl_get s f = flagv (fl_tst s f) f.
+Proof. intros. rewrite get_tst by assumption. reflexivity. Qed.
+
+Lemma mode_join : forall m, Z.land m (Z.ones 32) = m -> Z.lor (Z.land AE_IFMT m) (Z.land PERM_MASK m) = m.
+Proof.
+  intros m H. rewrite <- H at 3. bitwise n. rewrite <- KorP_bits.
+  destruct (Z.testbit AE_IFMT n), (Z.testbit PERM_MASK n), (Z.testbit m n); reflexivity.
+Qed.
+
+Lemma g_dev_make : forall d, 0 <= comb d < 2^64 -> g_dev d = dev_make (g_major d) (g_minor d).
+Proof. intros d H. unfold g_dev, g_major, g_minor. destruct (bd d); [reflexivity|]. symmetry. apply dev_make_split. assumption. Qed.
+
+Lemma enc_obs : forall x, b2z (Z.land x 1 =? 1) = b2z (fl_tst x 1) /\ b2z (Z.land x 2 =? 2) = b2z (fl_tst x 2) /\
+  Z.land x 3 = Z.lor (if fl_tst x 1 then 1 else 0) (if fl_tst x 2 then 2 else 0).
+Proof.
+  intros x.
+  assert (H1 : Z.land x 1 = if fl_tst x 1 then 1 else 0) by (apply (get_tst x 1); reflexivity).
+  assert (H2 : Z.land x 2 = if fl_tst x 2 then 2 else 0) by (apply (get_tst x 2); reflexivity).
+  split; [|split].
+  - rewrite H1. destruct (fl_tst x 1); reflexivity.
+  - rewrite H2. destruct (fl_tst x 2); reflexivity.
+  - change 3 with (Z.lor 1 2). rewrite Z.land_lor_distr_r, H1, H2. reflexivity.
+Qed.
+
+Lemma stat_ok : forall e, Inv e -> stat_compute e = sp_stat (abs e).
+Proof.
+  intros e I. unfold stat_compute, sp_stat, abs, abs_tm, abs_dv, sp_mode, sp_devnum, rdev_guard. proj.
+  rewrite (g_dev_make (dev e) (inv_dev e I)).
+  rewrite (mode_join (mode e) (inv_mode e I)).
+  rewrite (s64_id (size (idv e))) by (pose proof (inv_size e I); lia).
+  rewrite (u64_id (ino (idv e))) by (pose proof (inv_ino e I); lia).
+  destruct (has e AE_SET_RDEV) eqn:Hr.
+  - rewrite (g_dev_make (rdev e) (inv_rdev e I)). reflexivity.
+  - rewrite (inv_rdev0 e I Hr). reflexivity.
+Qed.
+
+Lemma observe_ok : forall e, Inv e ->
+  snd (observe e) = sp_observe (abs e) /\ abs (fst (observe e)) = sp_read (abs e) /\ Inv (fst (observe e)).
+Proof.
+  intros e I.
+  assert (Hsz : s64 (size (idv e)) = size (idv e)) by (apply s64_id; pose proof (inv_size e I); lia).
+  unfold observe. rewrite Hsz.
+  set (e1 := with_sparse e (sparse_norm (size (idv e)) (sparse_r e))).
+  assert (I1 : Inv e1).
+  { pose proof (inv_dev _ I); pose proof (inv_rdev _ I); pose proof (inv_size _ I); pose proof (inv_ino _ I).
+    subst e1. constructor; invf I; try lia. }
+  assert (A1 : abs e1 = sp_read (abs e)) by reflexivity.
+  assert (S1 : stat_compute e1 = stat_compute e) by reflexivity.
+  assert (Hst : snd (do_stat e1) = stat_compute e /\ abs (fst (do_stat e1)) = abs e1 /\ Inv (fst (do_stat e1))).
+  { unfold do_stat. destruct (stat_valid e1) eqn:V.
+    - cbn [fst snd]. split; [rewrite <- S1; apply (inv_stat e1 I1 V) | split; [reflexivity | exact I1]].
+    - cbn [fst snd]. split; [exact S1 | split; [reflexivity|]].
+      pose proof (inv_dev _ I1); pose proof (inv_rdev _ I1); pose proof (inv_size _ I1); pose proof (inv_ino _ I1).
+      constructor; unfold with_stat; proj; first [ exact (inv_excl _ I1) | exact (inv_none _ I1) | exact (inv_rdev0 _ I1)
+        | exact (inv_mode _ I1) | (intros; reflexivity) | lia ]. }
+  destruct (do_stat e1) as [e2 st]. cbn [fst snd] in *. destruct Hst as (Hs1 & Hs2 & Hs3).
+  split; [| split; [rewrite Hs2; exact A1 | exact Hs3]].
+  subst st. rewrite (stat_ok e I).
+  unfold sp_observe, sp_read, sp_stat, sp_obs_time, obs_time, sp_mode, sp_devnum, rdev_guard, g_hardlink, g_symlink, g_filetype, g_perm.
+  unfold sp_sparse, abs, abs_tm, abs_dv. proj.
+  rewrite !get_flagv by reflexivity.
+  destruct (enc_obs (enc e)) as (E1 & E2 & E3). rewrite E1, E2, E3.
+  rewrite (mode_join (mode e) (inv_mode e I)).
+  rewrite <- (g_dev_make (dev e) (inv_dev e I)).
+  unfold has.
+  f_equal.
+  - rewrite (get_flagv _ AE_SET_PERM eq_refl), (get_flagv _ AE_SET_FILETYPE eq_refl). reflexivity.
+  - rewrite (get_flagv _ AE_SET_DEV eq_refl), (get_flagv _ AE_SET_RDEV eq_refl).
+    assert (R : fl_tst (aset e) AE_SET_RDEV = false -> rdev e = dv0) by exact (inv_rdev0 e I).
+    pose proof (g_dev_make (rdev e) (inv_rdev e I)) as GR.
+    destruct (fl_tst (aset e) AE_SET_RDEV); [rewrite <- GR; reflexivity | rewrite (R eq_refl); reflexivity].
+  - destruct (fl_tst (aset e) AE_SET_HARDLINK); reflexivity.
+  - destruct (fl_tst (aset e) AE_SET_HARDLINK); reflexivity.
+  - destruct (fl_tst (aset e) AE_SET_SYMLINK); reflexivity.
+Qed.
+
+(* ================================================================ specification states up to the order of the xattr list *)
+Definition xeq (s1 s2 : spec) : Prop := sp_xattr s1 [] = sp_xattr s2 [] /\ Permutation (s_xattr s1) (s_xattr s2).
+
+Lemma sp_xattr_eta : forall s, s = sp_xattr s (s_xattr s).
+Proof. destruct s; reflexivity. Qed.
+
+Lemma xeq_split : forall s1 s2, xeq s1 s2 -> exists s l1 l2, s1 = sp_xattr s l1 /\ s2 = sp_xattr s l2 /\ Permutation l1 l2.
+Proof.
+  intros s1 s2 [H P]. exists (sp_xattr s1 []), (s_xattr s1), (s_xattr s2). split; [|split].
+  - destruct s1; reflexivity.
+  - rewrite H. destruct s2; reflexivity.
+  - exact P.
+Qed.
+
+Lemma xeq_intro : forall s l1 l2, Permutation l1 l2 -> xeq (sp_xattr s l1) (sp_xattr s l2).
+Proof. intros. split; [reflexivity | assumption]. Qed.
+
+Lemma xeq_refl : forall s, xeq s s.
+Proof. intros. split; [reflexivity | apply Permutation_refl]. Qed.
+
+Definition xop (o : op) (l : list (bytes * bytes)) : list (bytes * bytes) :=
+  match o with OXattrAdd n v => (n, v) :: l | OXattrClear => [] | OClear => [] | _ => l end.
+
+Lemma sp_step1_xattr : forall s l o,
+  fst (sp_step1 (sp_xattr s l) o) = sp_xattr (fst (sp_step1 s o)) (xop o l) /\
+  snd (sp_step1 (sp_xattr s l) o) = snd (sp_step1 s o).
+Proof.
+  intros s l o. destruct o; cbn [sp_step1 xop]; spx; unfold st_set, ss_set; proj;
+  repeat match goal with
+         | |- context [match ?x with _ => _ end] => destruct x
+         end; split; reflexivity.
+Qed.
+
+Lemma xop_perm : forall o l1 l2, Permutation l1 l2 -> Permutation (xop o l1) (xop o l2).
+Proof. intros o l1 l2 P. destruct o; cbn [xop]; try exact P; try apply Permutation_refl. apply perm_skip. exact P. Qed.
+
+Lemma xeq_step1 : forall s1 s2 o, xeq s1 s2 ->
+  xeq (fst (sp_step1 s1 o)) (fst (sp_step1 s2 o)) /\ snd (sp_step1 s1 o) = snd (sp_step1 s2 o).
+Proof.
+  intros s1 s2 o H. destruct (xeq_split s1 s2 H) as (s & l1 & l2 & -> & -> & P).
+  destruct (sp_step1_xattr s l1 o) as [A1 B1]. destruct (sp_step1_xattr s l2 o) as [A2 B2].
+  rewrite A1, A2, B1, B2. split; [apply xeq_intro, xop_perm, P | reflexivity].
+Qed.
+
+Lemma xeq_run1 : forall l s1 s2, xeq s1 s2 ->
+  xeq (fold_left (fun s o => fst (sp_step1 s o)) l s1) (fold_left (fun s o => fst (sp_step1 s o)) l s2).
+Proof.
+  induction l as [|o l IH]; intros s1 s2 H; cbn [fold_left]; [exact H|].
+  apply IH. apply xeq_step1. exact H.
+Qed.
+
+Lemma xeq_step : forall s1 s2 o, xeq s1 s2 ->
+  xeq (fst (sp_step s1 o)) (fst (sp_step s2 o)) /\ snd (sp_step s1 o) = snd (sp_step s2 o).
+Proof.
+  intros s1 s2 o H. destruct o; try exact (xeq_step1 s1 s2 _ H).
+  unfold sp_step. cbn [fst snd]. split; [apply xeq_run1; exact H | reflexivity].
+Qed.
+
+Lemma xeq_read : forall s1 s2, xeq s1 s2 -> xeq (sp_read s1) (sp_read s2).
+Proof.
+  intros s1 s2 H. destruct (xeq_split s1 s2 H) as (s & l1 & l2 & -> & -> & P).
+  change (sp_read (sp_xattr s l1)) with (sp_xattr (sp_read s) l1).
+  change (sp_read (sp_xattr s l2)) with (sp_xattr (sp_read s) l2). apply xeq_intro. exact P.
+Qed.
+
+Lemma xeq_observe : forall s1 s2, xeq s1 s2 -> obs_rel (sp_observe s1) (sp_observe s2).
+Proof.
+  intros s1 s2 H. destruct (xeq_split s1 s2 H) as (s & l1 & l2 & -> & -> & P).
+  split; [reflexivity | exact P].
+Qed.
+
+Lemma xeq_trans : forall a b c, xeq a b -> xeq b c -> xeq a c.
+Proof. intros a b c [H1 P1] [H2 P2]. split; [congruence | eapply Permutation_trans; eassumption]. Qed.
+
+(* ================================================================ clone *)
+Lemma clone_ok : forall e, Inv e -> Inv (clone false e) /\ xeq (abs (clone false e)) (abs e).
+Proof.
+  intros e I. split.
+  - pose proof (inv_dev _ I); pose proof (inv_rdev _ I); pose proof (inv_size _ I); pose proof (inv_ino _ I).
+    constructor; unfold clone; proj;
+      first [ exact (inv_excl _ I) | exact (inv_none _ I) | exact (inv_rdev0 _ I) | exact (inv_mode _ I)
+            | (intros; discriminate) | lia ].
+  - change (abs (clone false e)) with (sp_xattr (abs e) (rev (xattrs e))).
+    rewrite (sp_xattr_eta (abs e)) at 2. apply xeq_intro. apply Permutation_sym, Permutation_rev.
+Qed.
+
+(* every getter of a fresh clone returns what the original returns (xattr: as a multiset) *)
+Lemma clone_equal : forall e, Inv e -> obs_rel (snd (observe (clone false e))) (snd (observe e)).
+Proof.
+  intros e I. destruct (clone_ok e I) as [Ic X].
+  destruct (observe_ok _ Ic) as (H1 & _ & _). destruct (observe_ok _ I) as (H2 & _ & _).
+  rewrite H1, H2. apply xeq_observe. exact X.
+Qed.
+
+(* ================================================================ the machine *)
+Definition orel (c : option entry) (s : option spec) : Prop :=
+  match c, s with
+  | None, None => True
+  | Some c, Some s => Inv c /\ xeq (abs c) s
+  | _, _ => False
+  end.
+Definition MRel (cs : mstate) (ss : sstate) : Prop :=
+  (Inv (fst cs) /\ xeq (abs (fst cs)) (fst ss)) /\ orel (snd cs) (snd ss).
+
+Definition oobs_rel (a b : option obs) : Prop :=
+  match a, b with None, None => True | Some x, Some y => obs_rel x y | _, _ => False end.
+Definition out_rel (a b : Z * obs * option obs) : Prop :=
+  fst (fst a) = fst (fst b) /\ obs_rel (snd (fst a)) (snd (fst b)) /\ oobs_rel (snd a) (snd b).
+
+Lemma mstep_ok : forall cs ss m, MRel cs ss ->
+  MRel (fst (mstep false cs m)) (fst (sp_mstep ss m)) /\ snd (mstep false cs m) = snd (sp_mstep ss m).
+Proof.
+  intros [e c] [s sc] m [[I X] O]. cbn [fst snd] in *. destruct m; cbn [mstep sp_mstep fst snd].
+  - destruct (step_ok e o I) as (A & R & I').
+    destruct (xeq_step (abs e) s o X) as (X' & R').
+    rewrite <- A in X'. rewrite <- R in R'.
+    destruct (step false e o) as [e' r]. destruct (sp_step s o) as [s' r']. cbn [fst snd] in *.
+    split; [split; [split; [exact I' | exact X'] | exact O] | exact R'].
+  - destruct (clone_ok e I) as [Ic Xc].
+    split; [|reflexivity]. split; [split; assumption|]. cbn [orel]. split; [exact Ic | eapply xeq_trans; eassumption].
+  - destruct c as [c|], sc as [sc|]; cbn [orel] in O; try contradiction; cbn [fst snd].
+    + destruct O as [Ic Xc]. split; [|reflexivity]. split; [split; assumption | split; assumption].
+    + split; [|reflexivity]. split; [split; assumption | exact O].
+Qed.
+
+Lemma observe_rel : forall e s, Inv e -> xeq (abs e) s ->
+  obs_rel (snd (observe e)) (sp_observe s) /\ Inv (fst (observe e)) /\ xeq (abs (fst (observe e))) (sp_read s).
+Proof.
+  intros e s I X. destruct (observe_ok e I) as (H1 & H2 & H3).
+  rewrite H1, H2. split; [apply xeq_observe; exact X | split; [exact H3 | apply xeq_read; exact X]].
+Qed.
+
+Theorem refines_from : forall ms cs ss, MRel cs ss -> Forall2 out_rel (mrun false cs ms) (sp_mrun ss ms).
+Proof.
+  induction ms as [|m ms IH]; intros cs ss R; cbn [mrun sp_mrun]; [constructor|].
+  destruct (mstep_ok cs ss m R) as [R1 Hr].
+  destruct (mstep false cs m) as [[e c] r]. destruct (sp_mstep ss m) as [[s sc] r']. cbn [fst snd] in *. subst r'.
+  destruct R1 as [[I X] O]. cbn [fst snd] in *.
+  destruct (observe_rel e s I X) as (Ho & Io & Xo).
+  unfold mobserve. cbn [fst snd]. destruct (observe e) as [e' oe]. cbn [fst snd] in *.
+  destruct c as [c|], sc as [sc|]; cbn [orel] in O; try contradiction.
+  - destruct O as [Ic Xc]. destruct (observe_rel c sc Ic Xc) as (Hc & Ico & Xco).
+    destruct (observe c) as [c' oc]. cbn [fst snd option_map] in *.
+    constructor.
+    + split; [reflexivity | split; [exact Ho | exact Hc]].
+    + apply IH. split; [split; assumption | split; assumption].
+  - cbn [option_map]. constructor.
+    + split; [reflexivity | split; [exact Ho | exact O]].
+    + apply IH. split; [split; assumption | exact O].
+Qed.
+
+Lemma abs_init : abs init = spec_init.
+Proof. reflexivity. Qed.
+
+(* for EVERY program: what the getters of the object (and of its clone) return after each step is
+   what the specification says (the xattr enumeration up to its order) *)
+Theorem refines : forall ms, Forall2 out_rel (mrun false (init, None) ms) (sp_mrun (spec_init, None) ms).
+Proof.
+  intros ms. apply refines_from. split; [split; [exact Inv_init | cbn [fst]; rewrite abs_init; apply xeq_refl] | exact I].
+Qed.
+
+
+
+(* ================================================================ reachable objects *)
+Inductive reach : entry -> Prop :=
+| reach_init : reach init
+| reach_step : forall e o, reach e -> reach (fst (step false e o))
+| reach_clone : forall e, reach e -> reach (clone false e)
+| reach_read : forall e, reach e -> reach (fst (observe e)).
+
+Lemma reach_Inv : forall e, reach e -> Inv e.
+Proof.
+  induction 1.
+  - exact Inv_init.
+  - apply step_ok. assumption.
+  - apply clone_ok. assumption.
+  - apply observe_ok. assumption.
+Qed.
+
+(* file type and permission bits partition the mode *)
+Lemma mode_split : forall e, Inv e ->
+  Z.lor (g_filetype e) (g_perm e) = mode e /\ Z.land (g_filetype e) (g_perm e) = 0 /\
+  g_filetype e = Z.land AE_IFMT (mode e).
+Proof.
+  intros e I. unfold g_filetype, g_perm. split; [apply mode_join; exact (inv_mode e I)|]. split; [|reflexivity].
+  bitwise n. rewrite Z.bits_0. pose proof (KP_bits n).
+  destruct (Z.testbit AE_IFMT n), (Z.testbit PERM_MASK n), (Z.testbit (mode e) n); try discriminate; reflexivity.
+Qed.
+
+(* never a hard-link target and a symlink target at the same time *)
+Lemma link_exclusive : forall e, Inv e -> g_hardlink e = None \/ g_symlink e = None.
+Proof.
+  intros e I. pose proof (inv_excl e I) as X. unfold g_hardlink, g_symlink.
+  destruct (has e AE_SET_HARDLINK), (has e AE_SET_SYMLINK); cbn in X; try discriminate; auto.
+Qed.
+
+(* split and combined device numbers agree *)
+Lemma dev_consistent : forall e, Inv e ->
+  g_dev (dev e) = dev_make (g_major (dev e)) (g_minor (dev e)) /\
+  rdev_guard e (g_dev (rdev e)) = dev_make (rdev_guard e (g_major (rdev e))) (rdev_guard e (g_minor (rdev e))).
+Proof.
+  intros e I. split; [apply g_dev_make; exact (inv_dev e I)|].
+  unfold rdev_guard. destruct (has e AE_SET_RDEV); [apply g_dev_make; exact (inv_rdev e I) | reflexivity].
+Qed.
+
+(* archive_entry_stat never returns a stale structure *)
+Lemma stat_coherent : forall e, Inv e -> snd (do_stat e) = stat_compute e /\ stat_compute e = sp_stat (abs e).
+Proof.
+  intros e I. split; [|apply stat_ok; exact I]. unfold do_stat. destruct (stat_valid e) eqn:V; cbn [snd]; [apply (inv_stat e I V) | reflexivity].
+Qed.
+
+(* ================================================================ the sparse map stays sorted, disjoint and merged *)
+Fixpoint sp_wf (l : list (Z * Z)) : Prop :=      (* l is tail first *)
+  match l with
+  | [] => True
+  | (o, n) :: rest => 0 <= o /\ 0 <= n /\ match rest with (o', n') :: _ => o' + n' < o | [] => True end /\ sp_wf rest
+  end.
+
+Lemma sparse_add_wf : forall sz l off len, sp_wf l -> sp_wf (sparse_add sz l off len).
+Proof.
+  intros sz l off len W. unfold sparse_add.
+  destruct ((off <? 0) || (len <? 0)) eqn:E1; [exact W|].
+  apply orb_false_iff in E1. destruct E1 as [E1 E1']. apply Z.ltb_ge in E1. apply Z.ltb_ge in E1'.
+  destruct ((off >? INT64_MAX - len) || (off + len >? sz)) eqn:E2; [exact W|].
+  destruct l as [|[o n] rest]; [cbn; lia|].
+  destruct (o + n >? off) eqn:E3; [exact W|].
+  destruct (o + n =? off) eqn:E4.
+  - destruct (s64 (o + n + len) <? 0); [exact W|]. cbn [sp_wf] in W |- *. destruct W as (W1 & W2 & W3 & W4).
+    split; [lia | split; [lia | split; assumption]].
+  - apply Z.eqb_neq in E4. rewrite Z.gtb_ltb in E3. apply Z.ltb_ge in E3. cbn [sp_wf] in W |- *.
+    split; [lia | split; [lia | split; [lia | exact W]]].
+Qed.
+
+Lemma sparse_norm_wf : forall sz l, sp_wf l -> sp_wf (sparse_norm sz l).
+Proof.
+  intros sz l W. unfold sparse_norm. destruct l as [|[o n] [|b r]]; try exact W.
+  destruct ((o =? 0) && (n >=? sz)); [exact I | exact W].
+Qed.
+
+Lemma step1_sparse_wf : forall e o, sp_wf (sparse_r e) -> sp_wf (sparse_r (fst (step1 false e o))).
+Proof.
+  intros e o W. destruct o; cbn [step1]; unf; unfold split, clamp0;
+  repeat match goal with |- context [match ?x with _ => _ end] => destruct x end;
+  cbn [fst]; proj; try exact W; try exact I.
+  apply sparse_add_wf. exact W.
+Qed.
+
+Lemma reach_sparse_wf : forall e, reach e -> sp_wf (sparse_r e).
+Proof.
+  induction 1.
+  - exact I.
+  - destruct o; try (apply step1_sparse_wf; assumption).
+    unfold step. cbn [fst]. generalize (copy_stat_ops s). intros l. clear H. revert e IHreach.
+    induction l as [|o l IH]; intros e W; cbn [fold_left]; [exact W|].
+    apply IH. apply step1_sparse_wf. exact W.
+  - exact IHreach.
+  - unfold observe. destruct (do_stat _) as [e2 st] eqn:D. cbn [fst].
+    unfold do_stat in D. destruct (stat_valid _); inversion D; subst; unfold with_stat, with_sparse; proj; apply sparse_norm_wf; exact IHreach.
+Qed.
+
+
+
+(* ================================================================ the tree before fixes/C14-*.diff *)
+Definition run_lg (lg : bool) (ops : list op) : entry := fold_left (fun e o => fst (step lg e o)) ops init.
+Definition str_sym : bytes := [115; 121; 109]%N.          (* "sym" *)
+Definition str_hard : bytes := [104; 97; 114; 100]%N.     (* "hard" *)
+
+(* F-C14-1  set_symlink(e, "sym"); copy_hardlink(e, "hard"): both getters return "hard" *)
+Lemma legacy_copy_hardlink : 
+  let ops := [OLink LSym VSet (Some str_sym); OLink LHard VCopy (Some str_hard)] in
+  g_hardlink (run_lg true ops) = Some str_hard /\ g_symlink (run_lg true ops) = Some str_hard /\
+  g_hardlink (run_lg false ops) = Some str_hard /\ g_symlink (run_lg false ops) = None.
+Proof. vm_compute. repeat split. Qed.
+
+Lemma legacy_refines_refuted :
+  exists ms, ~ Forall2 out_rel (mrun true (init, None) ms) (sp_mrun (spec_init, None) ms).
+Proof.
+  exists [MOp (OLink LSym VSet (Some str_sym)); MOp (OLink LHard VCopy (Some str_hard))].
+  intros H. vm_compute in H. inversion H as [|a b la lb H1 H2]; subst. inversion H2 as [|a2 b2 la2 lb2 H3 H4]; subst.
+  destruct H3 as (_ & [Hn _] & _). discriminate.
+Qed.
+
+(* F-C14-2  set_dev(e, makedev(3,4)); set_devmajor(e, 5): devminor() is 0, not 4 *)
+Lemma legacy_set_devmajor :
+  let ops := [ODev DDev PComb (dev_make 3 4); ODev DDev PMaj 5] in
+  g_minor (dev (run_lg true ops)) = 0 /\ g_minor (dev (run_lg false ops)) = 4 /\
+  g_major (dev (run_lg false ops)) = 5 /\ g_dev (dev (run_lg false ops)) = dev_make 5 4.
+Proof. vm_compute. repeat split. Qed.
+
+(* F-C14-3  set_size(100); sparse_add_entry(10, 50); set_size(20); clone: the clone has no sparse block *)
+Lemma legacy_clone_sparse :
+  let e := run_lg true [OId KSize 100; OSparseAdd 10 50; OId KSize 20] in
+  o_sparse (snd (observe e)) = [(10, 50)] /\ o_sparse (snd (observe (clone true e))) = [] /\
+  o_sparse (snd (observe (clone false e))) = [(10, 50)].
+Proof. vm_compute. repeat split. Qed.
+
+(* F-C14-4  set_mode(0100644); stat(); acl_add_entry(ACCESS, rwx, USER_OBJ): stat()->st_mode stays 0100644 *)
+Lemma legacy_stat_stale :
+  let ms := [MOp (OMode 33188); MOp (OAclSpecial TUserObj 7)] in
+  (exists r o c, nth 1 (mrun true (init, None) ms) (0, snd (observe init), None) = (r, o, c) /\
+                 nth 0 (o_mode o) 0 = 33252 /\ nth 10 (o_stat o) 0 = 33188) /\
+  (exists r o c, nth 1 (mrun false (init, None) ms) (0, snd (observe init), None) = (r, o, c) /\
+                 nth 0 (o_mode o) 0 = 33252 /\ nth 10 (o_stat o) 0 = 33252).
+Proof. split; vm_compute; eexists; eexists; eexists; repeat split. Qed.
+
+(* independence of the clone is structural in a functional model: an operation on the object
+   leaves the other component of the machine state untouched *)
+Lemma clone_independent : forall lg e c o, snd (fst (mstep lg (e, Some c) (MOp o))) = Some c.
+Proof. intros. cbn [mstep fst snd]. destruct (step lg e o). reflexivity. Qed.
+
+Local Close Scope Z_scope.
+
+
+(* ================================================================ the three views of a string agree *)
+Section Mstring.
+  Variable T : Type.                        (* abstract texts *)
+  Variables (em eu : T -> bytes) (ew : T -> list N).   (* their three encodings *)
+  Variable c : conv.
+  (* the locale conversions are mutually inverse on the encodings of a text *)
+  Definition conv_ok (t : T) : Prop :=
+    m2w c (em t) = Some (ew t) /\ w2m c (ew t) = Some (em t) /\
+    u2m c (eu t) = Some (em t) /\ m2u c (em t) = Some (eu t).
+
+  (* every valid form holds the encoding of t, and some form is valid *)
+  Definition repr (m : mstr) (t : T) : Prop :=
+    has_mbs m || has_utf8 m || has_wcs m = true /\
+    (has_mbs m = true -> f_mbs m = em t) /\ (has_utf8 m = true -> f_utf8 m = eu t) /\
+    (has_wcs m = true -> f_wcs m = ew t).
+
+  Lemma get_mbs_ok : forall m t, conv_ok t -> repr m t ->
+    snd (ms_get_mbs c m) = Some (em t) /\ repr (fst (ms_get_mbs c m)) t /\ has_mbs (fst (ms_get_mbs c m)) = true.
+  Proof.
+    intros m t (C1 & C2 & C3 & C4) (R0 & R1 & R2 & R3). unfold ms_get_mbs.
+    destruct (has_mbs m) eqn:Hm.
+    - cbn [fst snd]. rewrite (R1 eq_refl). unfold repr. rewrite Hm. repeat split; auto.
+    - destruct (has_wcs m) eqn:Hw.
+      + rewrite (R3 eq_refl), C2. cbn [fst snd]. repeat split; cbn; auto.
+      + destruct (has_utf8 m) eqn:Hu; [|cbn in R0; discriminate].
+        rewrite (R2 eq_refl), C3. cbn [fst snd]. repeat split; cbn; auto; intros; discriminate.
+  Qed.
+
+  Lemma get_wcs_ok : forall m t, conv_ok t -> repr m t ->
+    snd (ms_get_wcs c m) = Some (ew t) /\ repr (fst (ms_get_wcs c m)) t.
+  Proof.
+    intros m t C R. pose proof C as (C1 & C2 & C3 & C4). unfold ms_get_wcs.
+    destruct (has_wcs m) eqn:Hw.
+    - destruct R as (R0 & R1 & R2 & R3). cbn [fst snd]. rewrite (R3 Hw). repeat split; auto.
+    - set (m1 := if has_mbs m then m else fst (ms_get_mbs c m)).
+      assert (H1 : repr m1 t /\ has_mbs m1 = true).
+      { subst m1. destruct (has_mbs m) eqn:Hm; [split; assumption|]. destruct (get_mbs_ok m t C R) as (_ & A & B). split; assumption. }
+      destruct H1 as [(Q0 & Q1 & Q2 & Q3) Hm1]. rewrite Hm1, (Q1 Hm1), C1. cbn [fst snd].
+      repeat split; cbn; auto.
+  Qed.
+
+  Lemma get_utf8_ok : forall m t, conv_ok t -> repr m t ->
+    snd (ms_get_utf8 c m) = Some (eu t) /\ repr (fst (ms_get_utf8 c m)) t.
+  Proof.
+    intros m t C R. pose proof C as (C1 & C2 & C3 & C4). unfold ms_get_utf8.
+    destruct (has_utf8 m) eqn:Hu.
+    - destruct R as (R0 & R1 & R2 & R3). cbn [fst snd]. rewrite (R2 Hu). repeat split; auto.
+    - set (m1 := if has_mbs m then m else fst (ms_get_mbs c m)).
+      assert (H1 : repr m1 t /\ has_mbs m1 = true).
+      { subst m1. destruct (has_mbs m) eqn:Hm; [split; assumption|]. destruct (get_mbs_ok m t C R) as (_ & A & B). split; assumption. }
+      destruct H1 as [(Q0 & Q1 & Q2 & Q3) Hm1]. rewrite Hm1, (Q1 Hm1), C4. cbn [fst snd].
+      repeat split; cbn; auto.
+  Qed.
+
+  Lemma setters_repr : forall t, conv_ok t ->
+    repr (ms_copy_mbs (em t)) t /\ repr (ms_copy_utf8 (eu t)) t /\ repr (ms_copy_wcs (ew t)) t /\
+    repr (fst (ms_update_utf8 c (eu t))) t /\ snd (ms_update_utf8 c (eu t)) = true.
+  Proof.
+    intros t (C1 & C2 & C3 & C4). unfold ms_update_utf8. rewrite C3, C1. cbn.
+    repeat split; auto; intros; discriminate.
+  Qed.
+
+  (* what a getter returns, as the encoding kind it stands for *)
+  Definition ms_get (g : msget) (m : mstr) : mstr * (option bytes * option (list N)) :=
+    match g with
+    | GetMbs => let '(m', r) := ms_get_mbs c m in (m', (r, None))
+    | GetUtf8 => let '(m', r) := ms_get_utf8 c m in (m', (r, None))
+    | GetWcs => let '(m', r) := ms_get_wcs c m in (m', (None, r))
+    end.
+  Definition expected (g : msget) (t : T) : option bytes * option (list N) :=
+    match g with GetMbs => (Some (em t), None) | GetUtf8 => (Some (eu t), None) | GetWcs => (None, Some (ew t)) end.
+  Fixpoint ms_gets (gs : list msget) (m : mstr) : list (option bytes * option (list N)) :=
+    match gs with [] => [] | g :: rest => let '(m', r) := ms_get g m in r :: ms_gets rest m' end.
+
+  (* whichever form was stored, and in whatever order the views are read (each read may cache a
+     conversion), every view returns the encoding of the same text *)
+  Theorem views_agree : forall t gs m, conv_ok t -> repr m t -> ms_gets gs m = map (fun g => expected g t) gs.
+  Proof.
+    intros t gs. induction gs as [|g gs IH]; intros m C R; [reflexivity|].
+    cbn [ms_gets map]. destruct g; cbn [ms_get expected].
+    - destruct (get_mbs_ok m t C R) as (A & B & _). destruct (ms_get_mbs c m) as [m' r]. cbn [fst snd] in *. subst r. f_equal. apply IH; assumption.
+    - destruct (get_wcs_ok m t C R) as (A & B). destruct (ms_get_wcs c m) as [m' r]. cbn [fst snd] in *. subst r. f_equal. apply IH; assumption.
+    - destruct (get_utf8_ok m t C R) as (A & B). destruct (ms_get_utf8 c m) as [m' r]. cbn [fst snd] in *. subst r. f_equal. apply IH; assumption.
+  Qed.
+End Mstring.
